@@ -4,7 +4,7 @@ from props.common import *  # noqa: F401,F403
 CO = "ghedesigner.coordinates"
 DM = "ghedesigner.domains"
 FUNCTIONS = [f"{CO}:rectangle", f"{CO}:open_rectangle", f"{CO}:l_shape", f"{CO}:lop_u", f"{CO}:c_shape", f"{CO}:zoned_rectangle", f"{CO}:transpose_coordinates",
-             f"{DM}:square_and_near_square", f"{DM}:rectangular", f"{D}:DesignNearSquare.__init__#body", f"{D}:DesignRectangle.__init__#body"]
+             f"{DM}:square_and_near_square", f"{DM}:rectangular", f"{DM}:bi_rectangular", f"{DM}:bi_rectangle_nested#body", f"{D}:DesignNearSquare.__init__#body", f"{D}:DesignRectangle.__init__#body"]
 NATIVE_FUNCTIONS = [f"{DM}:bi_rectangle_zoned_nested"]
 NATIVE_CASES = {"quick": 60, "thorough": 3000}
 NATIVE_LIMIT_S = {"quick": 60, "thorough": 1500}
@@ -13,7 +13,7 @@ LEVEL = "other"
 ASSUMPTIONS = [A_REAL + " - the floor/ceil of side/spacing ratios are discontinuity sites (defect D5 was a floating-point effect invisible over the reals; it is covered by the run-time contract)",
                A_ENGINE,
                "'at least b_min apart' is proved in the form: any two boreholes differ by at least b in x or by at least b in y (which implies Euclidean distance >= b and no coincidence)"]
-NOT_PROVED = ["bi_rectangular, bi_rectangle_nested, zoned_rectangle_domain, bi_rectangle_zoned_nested and the bi-rectangle / bi-zoned design constructors are not under discharged contracts yet: "
+NOT_PROVED = ["zoned_rectangle_domain, bi_rectangle_zoned_nested and the bi-rectangle / bi-zoned design constructors are not under discharged contracts: "
               "bounded run-time contract on the real generators (8 lots in both orientations x spacings) only",
               "ordering by borehole count of the rectangle list: bounded only (near-square ordering is proved)",
               "floating-point rounding of the ratio computations (T-E/T-B of the design): bounded run-time contract only"]
@@ -21,7 +21,9 @@ EXPLANATION = ("All shape builders of coordinates.py are proved for every count 
                "(hence no coincident boreholes), counts as stated; open_rectangle's points lie on the perimeter; zoned_rectangle's interior lattice keeps the spacing to the perimeter. "
                "square_and_near_square and DesignNearSquare: field m is the i x (i+j) grid at exactly spacing b with (i-1) b <= length, counts non-decreasing, first field one borehole. "
                "rectangular and DesignRectangle: every field of the list, on both orientation paths (long side first, transposed back), lies on the land rectangle with spacing >= b_min. "
-               "The bi-rectangle and bi-zoned generators are covered by the bounded run-time contract, which exposed defects D3, D4 (missing/incorrect transposition) and D5 (rounding) - all fixed.")
+               "bi_rectangular (long side first, as bi_rectangle_nested calls it) and bi_rectangle_nested: every field of every family lies on the land rectangle in the requested orientation, spacing >= b_min "
+               "along the long side and exactly length/(n-1) >= b_min along the short side (three loop invariants; the 1e-9 guard of the ceil is part of the proof). "
+               "The bi-zoned generators are covered by the bounded run-time contract, which exposed defects D3, D4 (missing/incorrect transposition) and D5 (rounding) - all fixed.")
 LEVEL_TEXT = ("Proof (all counts, spacings, land sizes, both orientations) for the shape builders, the near-square and the rectangle domains and their design constructors; bounded run-time contract "
               "for the bi-rectangle and bi-zoned generators and for floating-point effects - hence level 'other'.")
 LEVEL_NOTE = "Trusted: pyvc, z3 (nonlinear arithmetic over int*real products), A-REAL. Bounded part never counted as proved."
